@@ -19,6 +19,8 @@
 (*   14   parameterised by a LIST consumed by sum / any (folded by the ast    *)
 (*        rewriter at bind time: binding twice must not see the first fold)  *)
 (*   15   named "Tuple"       16 takes a Tuple[bool, bool] argument          *)
+(*   17, 18  constant locals (compiled with fastOptimizer they use the       *)
+(*        shared constant qubits TRUE / FALSE)                               *)
 (***************************************************************************)
 EXTENDS Integers, Sequences, FiniteSets, TLC, Json
 
@@ -26,7 +28,7 @@ CONSTANTS MaxLen, MaxLive, Progs
 VARIABLES live, hist
 
 Pred1 == {1, 2, 10, 5 + 100}     \* single-argument predicates (105: never a program; keeps the set a set of ints)
-Kind(p) == CASE p \in {1, 2, 10} -> "pred" [] p \in {3, 8, 9} -> "fun" [] p = 4 -> "caller" [] p \in {5, 6, 11, 12, 13, 15, 16} -> "bool2"
+Kind(p) == CASE p \in {1, 2, 10} -> "pred" [] p \in {3, 8, 9} -> "fun" [] p = 4 -> "caller" [] p \in {5, 6, 11, 12, 13, 15, 16, 17, 18} -> "bool2"
              [] p \in {7, 14} -> "param"
 
 Obj(k, term) == [k |-> k, term |-> term]
@@ -38,7 +40,7 @@ Do(term, newkind) ==
   /\ live' = IF newkind # "" /\ Len(live) < MaxLive THEN Append(live, Obj(newkind, term)) ELSE live
 
 Compile == \E p \in Progs : Kind(p) # "caller" /\ \E opt \in {"default", "fast"} :
-              (opt = "default" \/ p \in {1, 3}) /\ Do(T("compile", <<p, opt>>), Kind(p))
+              (opt = "default" \/ p \in {1, 3, 17, 18}) /\ Do(T("compile", <<p, opt>>), Kind(p))
 CompileDefs == 4 \in Progs /\ \E d \in Idx : live[d].k = "fun" /\ Do(T("compile_defs", <<4, live[d].term>>), "fun")
 Bind == \E u \in Idx : live[u].k = "param" /\ \E v \in {0, 3} : Do(T("bind", <<live[u].term, v>>), "fun")
 Oraclize == \E f \in Idx : live[f].k = "fun" /\ \E e \in {1, 2} : Do(T("oraclize", <<live[f].term, e>>), "pred")
